@@ -74,14 +74,12 @@ func Ceiling(ctx *expr.Context, input system.Collection, args ...expr.Expression
 	if len(args) != 0 {
 		return nil, fmt.Errorf("%w: received %v arguments, expected 0", ErrWrongArity, len(args))
 	}
-	// Input type conversion to float64
-	number, err := input.ToFloat64()
+	// Exact decimal arithmetic: no detour through float64
+	number, err := toDecimal(input)
 	if err != nil {
 		return nil, err
 	}
-	// Ceiling number
-	result := math.Ceil(number)
-	return system.Collection{system.Integer(result)}, nil
+	return integerResult(number.Ceil()), nil
 }
 
 // Exp returns e raised to the power of the input.
@@ -117,14 +115,12 @@ func Floor(ctx *expr.Context, input system.Collection, args ...expr.Expression) 
 	if len(args) != 0 {
 		return nil, fmt.Errorf("%w: received %v arguments, expected 0", ErrWrongArity, len(args))
 	}
-	// Input type conversion to float64
-	number, err := input.ToFloat64()
+	// Exact decimal arithmetic: no detour through float64
+	number, err := toDecimal(input)
 	if err != nil {
 		return nil, err
 	}
-	// Flooring number
-	result := math.Floor(number)
-	return system.Collection{system.Integer(result)}, nil
+	return integerResult(number.Floor()), nil
 }
 
 // Ln returns the natural logarithm of the input number.
@@ -332,14 +328,12 @@ func Truncate(ctx *expr.Context, input system.Collection, args ...expr.Expressio
 	if len(args) != 0 {
 		return nil, fmt.Errorf("%w: received %v arguments, expected 0", ErrWrongArity, len(args))
 	}
-	// Input type conversion to float64
-	number, err := input.ToFloat64()
+	// Exact decimal arithmetic: no detour through float64
+	number, err := toDecimal(input)
 	if err != nil {
 		return nil, err
 	}
-	// Ceiling number
-	result := math.Trunc(number)
-	return system.Collection{system.Integer(result)}, nil
+	return integerResult(number.Truncate(0)), nil
 }
 
 func logToBase(number, base float64) float64 {
@@ -364,4 +358,33 @@ func powInt32(base, exp int32) int32 {
 		result *= base
 	}
 	return result
+}
+
+// toDecimal converts a singleton collection holding a Decimal or an integer
+// (System or FHIR) to an exact decimal value.
+func toDecimal(input system.Collection) (decimal.Decimal, error) {
+	value, err := input.ToSingleton()
+	if err != nil {
+		return decimal.Decimal{}, err
+	}
+	primitive, err := system.From(value)
+	if err != nil {
+		return decimal.Decimal{}, err
+	}
+	switch v := primitive.(type) {
+	case system.Decimal:
+		return decimal.Decimal(v), nil
+	case system.Integer:
+		return decimal.NewFromInt32(int32(v)), nil
+	}
+	return decimal.Decimal{}, fmt.Errorf("type %T %w to a number", value, system.ErrNotConvertible)
+}
+
+// integerResult returns the integral decimal value as an Integer, or an empty
+// collection when it does not fit an Integer.
+func integerResult(value decimal.Decimal) system.Collection {
+	if value.LessThan(decimal.NewFromInt(math.MinInt32)) || value.GreaterThan(decimal.NewFromInt(math.MaxInt32)) {
+		return system.Collection{}
+	}
+	return system.Collection{system.Integer(value.IntPart())}
 }
